@@ -74,6 +74,8 @@ def is_flag_or_unit(item):
     lhs = item.st['lhs']; rv = item.st['rv']
     if lhs[1] or rv['k'] != 'use' or rv['op'][0] != 'c':
         return False
+    if (item.span or {}).get('exp') == 'cfg!':
+        return False          # the value of `cfg!(..)`: a constant that differs between feature configurations and steers a branch
     ty = item.body.local_ty(lhs[0])
     named = lhs[0] in item.body.local_names
     if ty == '()' :
